@@ -181,7 +181,7 @@ def d1_dir(name):
     return os.path.join(WORK, "d1", name)
 
 
-def setup_d1(name, bins, rt=True, lib=None, extra_toml="", no_std_lib=None):
+def setup_d1(name, bins, rt=True, lib=None, extra_toml="", no_std_lib=None, educe_features=None):
     """Create a cargo package `name` with the given {bin name: source}. Returns its dir."""
     d = d1_dir(name)
     srcdir = os.path.join(d, "src", "bin")
@@ -193,7 +193,8 @@ def setup_d1(name, bins, rt=True, lib=None, extra_toml="", no_std_lib=None):
     for f in os.listdir(srcdir):
         if f not in want:
             os.unlink(os.path.join(srcdir, f))
-    deps = 'educe = { path = "%s" }\n' % REPO
+    deps = 'educe = { path = "%s"%s }\n' % (REPO, (', features = [%s]' % ", ".join('"%s"' % f for f in educe_features))
+                                            if educe_features else "")
     if rt:
         deps += 'verif_rt = { path = "%s/rt" }\n' % VERIF
     toml = """[package]
